@@ -6,7 +6,9 @@
 (* or ;<comment>, with single spaces between the fields; blank lines and   *)
 (* leading blanks are skipped.  Node ids, sort ids and bit widths are      *)
 (* positive, all numbers fit u64 and have no leading zeros.                *)
-(* Read(v) = <<"ok" | "bad", items>> with items in the harness' encoding:  *)
+(* ReadLoc(v) = <<"ok", items>> | <<"bad", items so far, lo, hi>> (the     *)
+(* first offending token: a syntax error has to be raised at a position in *)
+(* lo..hi, C08) with items in the harness' encoding:                       *)
 (*   <<"cline", bytes>>                                                    *)
 (*   <<"node", id, keyword, <<arguments>>, symbol, comment>>               *)
 (* numbers as decimal strings, constants / symbols / comments as byte      *)
@@ -110,13 +112,18 @@ UNum(v, p) ==
     ELSE Let(DigitsOf(v, p, e), LAMBDA d : IF Leq(d, U64Max) THEN <<d, e>> ELSE <<<<>>, p>>))
 PosNum(v, p) == Let(UNum(v, p), LAMBDA n : IF n[1] = <<>> \/ IsZero(n[1]) THEN <<<<>>, p>> ELSE n)
 
+\* the offending token at p: the run of non-blank bytes starting there (possibly empty)
+RECURSIVE TokEnd(_, _)
+TokEnd(v, p) == IF At(v, p) \in {32, 10, None} THEN p ELSE TokEnd(v, p + 1)
+Bad(acc, v, p) == <<FALSE, acc, p, TokEnd(v, p)>>
+
 \* k space-separated numbers, each introduced by a single space; pos = positive required
 RECURSIVE Args(_, _, _, _, _)
 Args(v, p, k, pos, acc) ==
   IF k = 0 THEN <<TRUE, acc, p>>
-  ELSE IF At(v, p) # 32 THEN <<FALSE, acc, p>>
+  ELSE IF At(v, p) # 32 THEN Bad(acc, v, p)
   ELSE Let(IF pos THEN PosNum(v, p + 1) ELSE UNum(v, p + 1), LAMBDA n :
-       IF n[1] = <<>> THEN <<FALSE, acc, p>> ELSE Args(v, n[2], k - 1, pos, Append(acc, DStr(n[1]))))
+       IF n[1] = <<>> THEN Bad(acc, v, p + 1) ELSE Args(v, n[2], k - 1, pos, Append(acc, DStr(n[1]))))
 
 RECURSIVE RunEnd(_, _, _)
 \* end of the run of bytes at p that satisfy the class `cls` ("bin", "dec", "hex", "sym", "cmt")
@@ -130,21 +137,22 @@ RunEnd(v, p, cls) ==
   IN  IF ok THEN RunEnd(v, p + 1, cls) ELSE p
 
 \* the tail of a node line after the arguments: [ symbol][ ;comment] then LF (kept for the next skip
-\* if a comment was read).  <<ok, symbol, comment, next>>
+\* if a comment was read).  <<TRUE, symbol, comment, next>> | <<FALSE, 0, lo, hi>>
 LineTail(v, p) ==
   IF At(v, p) = 10 THEN <<TRUE, <<"none">>, <<"none">>, p + 1>>
-  ELSE IF At(v, p) # 32 THEN <<FALSE, 0, 0, p>>
+  ELSE IF At(v, p) # 32 THEN Bad(0, v, p)
   ELSE IF At(v, p + 1) = 59
     THEN Let(RunEnd(v, p + 2, "cmt"), LAMBDA e : <<TRUE, <<"none">>, <<"some", SubSeq(v, p + 3, e)>>, e>>)
   ELSE Let(RunEnd(v, p + 1, "sym"), LAMBDA se :
-       IF se = p + 1 THEN <<FALSE, 0, 0, p>>
+       IF se = p + 1 THEN Bad(0, v, p + 1)
        ELSE LET sym == <<"some", SubSeq(v, p + 2, se)>> IN
             IF At(v, se) = 10 THEN <<TRUE, sym, <<"none">>, se + 1>>
             ELSE IF At(v, se) = 32 /\ At(v, se + 1) = 59
               THEN Let(RunEnd(v, se + 2, "cmt"), LAMBDA e : <<TRUE, sym, <<"some", SubSeq(v, se + 3, e)>>, e>>)
-            ELSE <<FALSE, 0, 0, p>>)
+            ELSE IF At(v, se) = 32 THEN Bad(0, v, se + 1)
+            ELSE Bad(0, v, se))
 
-\* the arguments of a node by keyword category: <<ok, args, next>>
+\* the arguments of a node by keyword category: <<TRUE, args, next>> | <<FALSE, args, lo, hi>>
 NodeArgs(v, p, cat) ==
   CASE cat = "assign"  -> Args(v, p, 3, TRUE, <<>>)
     [] cat = "out1"    -> Args(v, p, 1, TRUE, <<>>)
@@ -154,44 +162,47 @@ NodeArgs(v, p, cat) ==
     [] cat = "ternary" -> Args(v, p, 4, TRUE, <<>>)
     [] cat = "ext"     -> Let(Args(v, p, 2, TRUE, <<>>), LAMBDA a : IF ~a[1] THEN a ELSE Args(v, a[3], 1, FALSE, a[2]))
     [] cat = "slice"   -> Let(Args(v, p, 2, TRUE, <<>>), LAMBDA a : IF ~a[1] THEN a ELSE Args(v, a[3], 2, FALSE, a[2]))
-    [] cat = "justice" -> IF At(v, p) # 32 THEN <<FALSE, <<>>, p>>
+    [] cat = "justice" -> IF At(v, p) # 32 THEN Bad(<<>>, v, p)
                           ELSE Let(PosNum(v, p + 1), LAMBDA c :
-                               IF c[1] = <<>> \/ Len(c[1]) > 6 THEN <<FALSE, <<>>, p>>
-                               ELSE Args(v, c[2], NatOfD(c[1], 0), TRUE, <<DStr(c[1])>>))
+                               IF c[1] = <<>> THEN Bad(<<>>, v, p + 1)
+                               \* a count no line can hold behaves like any other such count
+                               ELSE Args(v, c[2], IF Len(c[1]) > 9 THEN 999999999 ELSE NatOfD(c[1], 0), TRUE, <<DStr(c[1])>>))
     [] cat \in {"cbin", "cdec", "chex"} ->
          Let(Args(v, p, 1, TRUE, <<>>), LAMBDA s :
-           IF ~s[1] \/ At(v, s[3]) # 32 THEN <<FALSE, s[2], p>>
+           IF ~s[1] THEN s
+           ELSE IF At(v, s[3]) # 32 THEN Bad(s[2], v, s[3])
            ELSE LET q == s[3] + 1
                     q1 == IF cat = "cdec" /\ At(v, q) = 45 THEN q + 1 ELSE q
                     e == RunEnd(v, q1, IF cat = "cbin" THEN "bin" ELSE IF cat = "cdec" THEN "dec" ELSE "hex")
-                IN  IF e = q THEN <<FALSE, s[2], p>> ELSE <<TRUE, Append(s[2], SubSeq(v, q + 1, e)), e>>)
+                IN  IF e = q THEN Bad(s[2], v, q) ELSE <<TRUE, Append(s[2], SubSeq(v, q + 1, e)), e>>)
     [] cat = "sort" ->
-         IF At(v, p) # 32 THEN <<FALSE, <<>>, p>>
+         IF At(v, p) # 32 THEN Bad(<<>>, v, p)
          ELSE Let(LowerEnd(v, p + 1), LAMBDA e :
               LET w == SubSeq(v, p + 2, e) IN
               IF w = <<98, 105, 116, 118, 101, 99>> THEN Args(v, e, 1, TRUE, <<"bitvec">>)
               ELSE IF w = <<97, 114, 114, 97, 121>> THEN Args(v, e, 2, TRUE, <<"array">>)
-              ELSE <<FALSE, <<>>, p>>)
+              ELSE Bad(<<>>, v, p + 1))
 
 RECURSIVE SkipBlank(_, _)
 SkipBlank(v, p) == IF At(v, p) \in {32, 10} THEN SkipBlank(v, p + 1) ELSE p
 
-RECURSIVE Lines(_, _, _, _)
-Lines(v, p0, acc, fuel) ==
+RECURSIVE Lines(_, _, _)
+Lines(v, p0, acc) ==
   Let(SkipBlank(v, p0), LAMBDA p :
   IF At(v, p) = None THEN <<"ok", acc>>
-  ELSE IF fuel = 0 THEN <<"bad", acc>>
   ELSE IF At(v, p) = 59
-    THEN Let(RunEnd(v, p + 1, "cmt"), LAMBDA e : Lines(v, e, Append(acc, <<"cline", SubSeq(v, p + 2, e)>>), fuel - 1))
+    THEN Let(RunEnd(v, p + 1, "cmt"), LAMBDA e : Lines(v, e, Append(acc, <<"cline", SubSeq(v, p + 2, e)>>)))
   ELSE Let(PosNum(v, p), LAMBDA id :
-       IF id[1] = <<>> \/ At(v, id[2]) # 32 THEN <<"bad", acc>>
+       IF id[1] = <<>> THEN <<"bad", acc, p, TokEnd(v, p)>>
+       ELSE IF At(v, id[2]) # 32 THEN <<"bad", acc, id[2], TokEnd(v, id[2])>>
        ELSE Let(Keyword(v, id[2] + 1), LAMBDA kw :
-            IF kw[1] = 0 THEN <<"bad", acc>>
+            IF kw[1] = 0 THEN <<"bad", acc, id[2] + 1, TokEnd(v, id[2] + 1)>>
             ELSE Let(NodeArgs(v, kw[2], KWTable[kw[1]][3]), LAMBDA a :
-                 IF ~a[1] THEN <<"bad", acc>>
+                 IF ~a[1] THEN <<"bad", acc, a[3], a[4]>>
                  ELSE Let(LineTail(v, a[3]), LAMBDA t :
-                      IF ~t[1] THEN <<"bad", acc>>
-                      ELSE Lines(v, t[4], Append(acc, <<"node", DStr(id[1]), KWTable[kw[1]][1], a[2], t[2], t[3]>>), fuel - 1))))))
+                      IF ~t[1] THEN <<"bad", acc, t[3], t[4]>>
+                      ELSE Lines(v, t[4], Append(acc, <<"node", DStr(id[1]), KWTable[kw[1]][1], a[2], t[2], t[3]>>)))))))
 
-Read(v) == Lines(v, 0, <<>>, Len(v) + 1)
+ReadLoc(v) == Lines(v, 0, <<>>)
+Read(v) == Let(ReadLoc(v), LAMBDA r : <<r[1], r[2]>>)
 =============================================================================
